@@ -131,7 +131,7 @@ def jobs(tier: str):
     def nonbinding():
         # the shared set binds none of its variables; each occurrence has its own binder next to the set
         sets = [["X > 1", "not q(X)"], ["e(2*X)", "not q(X)"], ["X < 3", "X > 0"], ["X != Y", "not p(X,Y)"],
-                ["not e(X)", "not q(X)"]]
+                ["not e(X)", "not q(X)"], ["not not p(X,Z)", "q(Z)"], ["not not p(Z,X)", "not not q(Z)", "e(Z)"]]
         ctxs = [("cond", "h{I} :- g(Z) : {B}, {SC}."), ("agg", "h{I}(N) :- N = #sum {{ 1,X : {B}, {SC} }}."),
                 ("body", "h{I} :- {B}; {S}."), ("weak", ":~ {B}; {S}. [1@{I},X]")]
         uni = ["p(1,2)", "p(2,1)", "p(2,2)", "q(1)", "q(2)", "e(1)", "e(2)", "e(4)", "g(1)"]
